@@ -1,11 +1,19 @@
 """C01 -- solved circuits obey Kirchhoff's laws and every component's defining relation.
 
-1. lake build Lcapy.Props.C01 (mna_iff_laws, mna_unique, solver_independent, ... for ALL netlists);
-   axioms audit.
+0. Static tie: harness/translate/tx_stamps.py re-reads the `_stamp` methods of /repo's CURRENT lcapy/mnacpts.py (ast)
+   and regenerates lean/Lcapy/Generated/Stamps.lean; Props/C01Stamps.lean proves, class by class and branch by branch,
+   that the stamps AS WRITTEN IN THE SOURCE give the same rows as the hand model, only accumulate, and guard every node
+   index (`mna_iff_laws_source`).  A broken theorem names the class; the directed families of that class are searched
+   first for a failing input.  A class the reader cannot parse is counted (`translator-unparsed`), never an alarm.
+1. lake build Lcapy.Props.C01 (mna_iff_laws, mna_unique, solver_independent, ... for ALL netlists), C01TwoPort,
+   C01Stamps, C01Glue (allocation of branch unknowns: alloc_complete / alloc_nodup / frontend_wf; reported_currents),
+   C01Amp (fdopamp / inamp expansion laws); axioms audit.
 2. Correspondence: random well-formed netlists are given as raw text to the Lean model
    (front-end + MNA stamps + checked solver) and to the real Lcapy; node voltages (by node name),
    branch currents (by component name) and reported component currents are compared exactly at
-   rational sample points; the assembled A/Z entries are compared by names as a diagnostic.
+   rational sample points; the assembled A/Z entries (by names), the list `unknown_branch_currents` (names and order),
+   the currents `_solve` reconstructs for R/C/Y/I (`_Idict`) and one round of `_expand` of the opamp / fdopamp / inamp
+   forms are compared too.
 3. Oracle: the Lean spec `Laws` (KCL + component relations) is evaluated on Lcapy's own reported
    voltages and branch currents, for every case, whatever the model answered; also with a second
    solver method (solver independence).
@@ -282,7 +290,7 @@ def run(chk, replay=None):
     t_start = _time.time()
     txinfo = run_translator(chk)
     broken = chk.lean(['Lcapy/Props/C01.lean', 'Lcapy/Props/C01TwoPort.lean', 'Lcapy/Props/C01Stamps.lean',
-                       'Lcapy/Props/C01Glue.lean'],
+                       'Lcapy/Props/C01Glue.lean', 'Lcapy/Props/C01Amp.lean'],
                       helper_files=['Lcapy/Proofs/MNA.lean', 'Lcapy/Proofs/MNAStamps.lean', 'Lcapy/Proofs/Alloc.lean',
                                     'Lcapy/Model/MNA.lean', 'Lcapy/Model/Alloc.lean',
                                     'Lcapy/Model/Netlist.lean', 'Lcapy/Generated/Stamps.lean',
@@ -550,7 +558,7 @@ def run(chk, replay=None):
                 if n_cex:
                     break
         # directed stream: every component kind certainly present, terminals off ground, both orientations
-        ndirected = 3 if quick else 16
+        ndirected = 3 if quick else 14     # 38 families
         for kind in gen_netlist.DIRECTED_KINDS:
             for j in range(ndirected):
                 case = gen_netlist.directed_case(rng, kind, floating=(j % 2 == 0))
